@@ -119,6 +119,7 @@ CLS == P("cls", AnyT)
 \*   "tuple"/"list" container of parameters is   "dict" {is[1]: is[2]}
 \*   "call" is[1](is[2])                         "firstor" is[1][0] if is[1] else is[2]
 \*   "callc" is[1](o)                            "swapped" (is[1][1], is[1][0])
+\*   "elem_list" / "elem_tuple" / "elem_seq"  is[1][0] if isinstance(is[1], list / tuple / Sequence) and is[1] else is[2]
 \*   "new" (constructors) the new instance o
 Body(k, is, o) == [k |-> k, is |-> is, o |-> o]
 BP(i) == Body("param", <<i>>, NONE)
@@ -198,6 +199,14 @@ Lib == <<
       Body("swapped", <<1>>, NONE), <<"T", "S">>),
     Fn("gen_opt", "", "gen_opt", "plain", "fn", <<P("x", TV("T")), PD("d", Opt(TV("T")), NONE)>>, Opt(TV("T")), BP(2),
        <<"T">>, <<"d">>),
+    \* a union parameter with two T-bearing members: an argument that matches both contributes an OrBound
+    G("first_or", <<P("xs", Union(<<TV("T"), Generic("list", <<TV("T")>>)>>)), P("d", TV("T"))>>, TV("T"),
+      Body("elem_list", <<1, 2>>, NONE), <<"T">>),
+    G("first_seq", <<P("xs", Union(<<TV("T"), Generic("Sequence", <<TV("T")>>)>>)), P("d", TV("T"))>>, TV("T"),
+      Body("elem_seq", <<1, 2>>, NONE), <<"T">>),
+    G("first_tup", <<P("xs", Union(<<TV("T"), Generic("tuple", <<TV("T")>>)>>)), P("d", TV("T"))>>, TV("T"),
+      Body("elem_tuple", <<1, 2>>, NONE), <<"T">>),
+    G("unwrap", <<P("xs", Union(<<TV("T"), Generic("list", <<TV("T")>>)>>))>>, TV("T"), Body("elem_list", <<1, 1>>, NONE), <<"T">>),
     G("lst_c", <<P("x", Generic("list", <<TV("TC")>>))>>, Generic("list", <<TV("TC")>>), BP(1), <<"TC">>),
     G("apply", <<P("f", CallT(<<TV("T")>>, TV("S"))), P("x", TV("T"))>>, TV("S"), Body("call", <<1, 2>>, NONE), <<"T", "S">>),
     G("apply2", <<P("f", CallT(<<TV("T")>>, TV("S"))), P("g", CallT(<<TV("T")>>, TV("S"))), P("x", TV("T"))>>, TV("S"),
@@ -226,7 +235,7 @@ Lib == <<
        << >>, <<"y">>) >>
 
 LibSet == {Lib[i] : i \in 1..Len(Lib)}
-ThreeArg == {"f_3", "f_vakw", "apply2"}
+ThreeArg == {"f_3", "f_vakw"}
 ActiveFns == IF FnFilter = "all" THEN LibSet ELSE {f \in LibSet : f.id \notin ThreeArg}
 FnOf(id) == CHOOSE f \in LibSet : f.id = id
 
@@ -366,6 +375,13 @@ RefResult(fn, call) ==
                              ELSE IF Helper(a(1).v).body = "const" THEN Ret(Helper(a(1).v).o) ELSE Ret(b.o)
          [] b.k = "swapped" -> IF a(1).c = "tuple" /\ Len(a(1).items) = 2 THEN Ret(Cont("tuple", <<a(1).items[2], a(1).items[1]>>))
                                ELSE Raises
+         [] b.k \in {"elem_list", "elem_tuple", "elem_seq"} ->
+              \* (strings of the universe have at most one character: the first element of "a" is "a")
+              LET x == a(1)
+                  isit == CASE b.k = "elem_list" -> x.c = "list" [] b.k = "elem_tuple" -> x.c = "tuple"
+                            [] OTHER -> x.c \in {"list", "tuple", "str"}
+                  nonempty == IF x.c = "str" THEN x.v # "" ELSE x.items # << >>
+              IN IF isit /\ nonempty THEN Ret(IF x.c = "str" THEN x ELSE x.items[1]) ELSE Ret(a(2))
          [] b.k = "firstor" -> IF a(1).c = "list" /\ a(1).items # << >> THEN Ret(a(1).items[1]) ELSE Ret(a(2))
 
 (***************************************************************************)
@@ -402,6 +418,7 @@ ImplBoundAt(ps, call, i) ==
 Lb(n, v) == [tv |-> n, k |-> "L", v |-> v, vs |-> << >>]
 Ub(n, v) == [tv |-> n, k |-> "U", v |-> v, vs |-> << >>]
 Ob(n, vs) == [tv |-> n, k |-> "O", v |-> Never, vs |-> vs]
+OrB(n) == [tv |-> n, k |-> "R", v |-> Never, vs |-> << >>]   \* OrBound (its alternatives are never read: typevar.py:110-112)
 
 \* TypeVarValue.get_inherent_bounds (value.py:2186-2190)
 ImplInherent(n) ==
@@ -433,6 +450,7 @@ ImplStep(st, b) ==
             IF ~st.tset \/ IsA(st.top, b.v) THEN [st EXCEPT !.tset = TRUE, !.top = b.v]   \* :104-105
             ELSE IF IsA(b.v, st.top) THEN st                                              \* :106-107
             ELSE [st EXCEPT !.top = ImplUnite(<<st.top, b.v>>)]                           \* :108-109
+      [] b.k = "R" -> st                                                                  \* :110-112 OrBound: continue
       [] b.k = "O" -> [st EXCEPT !.oset = TRUE, !.opts = b.vs]                            \* :113-114
 RECURSIVE ImplFold(_, _)
 ImplFold(st, bs) == IF bs = << >> THEN st ELSE ImplFold(ImplStep(st, Head(bs)), Tail(bs))
@@ -520,14 +538,18 @@ ImplCAB(A, B) ==
                         IN IF \E i \in 1..Len(rs) : A.ms[i].many # B1.ms[i].many \/ ~rs[i].ok THEN Fail   \* :1234-1254
                            ELSE R(TRUE, cat(1))
            [] A.k = "union" ->                           \* MultiValuedValue.can_assign value.py:2009-2032
-                \* (library restriction: exactly one member mentions type variables.)  Members that
-                \* reject are ignored; intersect_bounds_maps (value.py:2794) keeps the bounds of a type
-                \* variable only if every accepting member produced bounds for it.
+                \* Members that reject are ignored; intersect_bounds_maps (value.py:2794-2807) keeps the
+                \* bounds of a type variable only if every accepting member produced bounds for it, and
+                \* wraps them in ONE OrBound when the accepting members produced different lists.
                 LET rs == [i \in 1..Len(A.ms) |-> ImplCAB(A.ms[i], B)]
                     okset == {i \in 1..Len(A.ms) : rs[i].ok}
-                    tvm == CHOOSE i \in 1..Len(A.ms) : HasTV(A.ms[i])
-                IN IF okset = {} THEN Fail
-                   ELSE IF okset = {tvm} THEN R(TRUE, rs[tvm].bs) ELSE R(TRUE, << >>)
+                    for(i, n) == SelectSeq(rs[i].bs, LAMBDA b : b.tv = n)
+                    one(n) == IF \E i \in okset : for(i, n) = << >> THEN << >>
+                              ELSE IF Cardinality({for(i, n) : i \in okset}) = 1 THEN for(CHOOSE i \in okset : TRUE, n)
+                              ELSE <<OrB(n)>>
+                    RECURSIVE cat(_)
+                    cat(j) == IF j > Len(TvDecls) THEN << >> ELSE one(TvDecls[j].n) \o cat(j + 1)
+                IN IF okset = {} THEN Fail ELSE R(TRUE, cat(1))
            [] A.k = "callable" ->                        \* CallableValue.can_assign value.py:1763-1783
                 IF ~(B.k = "known" /\ B.o.c = "function") \/ Len(A.ps) # 1 THEN Fail      \* :1769-1771
                 ELSE LET h == Helper(B.o.v)
@@ -616,9 +638,20 @@ ImplCall(fn, call) ==
 (***************************************************************************)
 IsGeneric(fn) == fn.tvs # << >>
 Diagnosed(r) == r.nia + r.nic > 0
-\* known deviations among single calls of the library: none (the one known deviation needs a second call in
-\* the same run, see the sessions below)
-DevClass(fn, call) == ""
+\* Known deviation (the C15 finding orbound-ignored seen through a call): an argument that belongs to more
+\* than one type-variable-bearing member of a union parameter (e.g. a list passed for Union[T, list[T]])
+\* contributes an OrBound, which typevar.solve skips; T is then fixed by the other arguments alone and the
+\* second pass rejects the argument (false positive, e.g. first_or([1], "a") although T = int | str fits),
+\* the type inferred for the diagnosed call being the too narrow solution.  A predicate over Ref notions only.
+AllObject(fn) == [n \in SeqRange(fn.tvs) |-> TObj]
+MultiMatch(fn, e) ==
+    e.ann.k = "union" /\
+    Cardinality({i \in 1..Len(e.ann.ms) : HasTV(e.ann.ms[i]) /\ MemberX(e.o, RSubst(e.ann.ms[i], AllObject(fn)))}) >= 2
+Dev_OrBoundIgnored(fn, call) == \E e \in SeqRange(RefExplicit(RefParams(fn), call)) : MultiMatch(fn, e)
+DevClass(fn, call) == IF Dev_OrBoundIgnored(fn, call) THEN "orbound-ignored" ELSE ""
+\* the deviation only explains a diagnostic on a call whose arguments fit (and what is inferred for that
+\* diagnosed call); an ACCEPTED call is never excused
+Excused(fn, call, r) == Diagnosed(r) /\ ~RefBad(fn, call) /\ DevClass(fn, call) # ""
 
 \* (1) diagnosed exactly when some argument does not fit; for a non-generic function the
 \*     diagnostic is the incompatible-argument one
@@ -626,7 +659,17 @@ DiagnosisOK(fn, call, r) ==
     /\ Diagnosed(r) <=> RefBad(fn, call)
     /\ ~IsGeneric(fn) => r.nic = 0
 \* (2) the inferred type contains what the call returns (for calls whose arguments fit)
-ResultOK(fn, call, inferred, real) == (~RefBad(fn, call) /\ ~real.raised) => MemberX(real.o, inferred)
+\*     The clause presumes that the library body respects its own annotation.  The bodies
+\*     `xs[0] if isinstance(xs, list) and xs else d` (declared -> T for xs: Union[T, list[T]]) do not when the
+\*     list passed for xs is itself taken as T -- i.e. when it is a member of the value inferred for T: the
+\*     isinstance test cannot tell T from list[T] then.  Those calls are outside the clause.
+ElemKind(b, x) == CASE b.k = "elem_list" -> x.c = "list" [] b.k = "elem_tuple" -> x.c = "tuple"
+                    [] b.k = "elem_seq" -> x.c \in {"list", "tuple", "str"} [] OTHER -> FALSE
+BodyAmbiguous(fn, call, r) ==
+    /\ fn.body.k \in {"elem_list", "elem_tuple", "elem_seq"} /\ r.solved
+    /\ LET x == RefBoundObj(RefParams(fn), call, fn.body.is[1])
+       IN ElemKind(fn.body, x) /\ MemberX(x, RSubst(fn.ret, SigmaFn(fn, r.sigma)))
+ResultOK(fn, call, r, real) == (~RefBad(fn, call) /\ ~real.raised /\ ~BodyAmbiguous(fn, call, r)) => MemberX(real.o, r.inferred)
 \* (3) generic functions: the solution makes every argument acceptable, or an error is reported
 SolutionOK(fn, call, r) == (IsGeneric(fn) /\ ~Diagnosed(r) /\ r.solved) => RefSolutionFits(fn, call, r.sigma)
 
@@ -745,8 +788,10 @@ CDone == stage = "done"
 TheFn == FnOf(case.fn)
 TheRes == ImplCall(TheFn, case)
 
-InvDiagnosis == CDone => (DiagnosisOK(TheFn, case, TheRes) \/ DevClass(TheFn, case) # "")
-InvResult == CDone => ResultOK(TheFn, case, TheRes.inferred, RefResult(TheFn, case))
+InvDiagnosis == CDone => (DiagnosisOK(TheFn, case, TheRes) \/ Excused(TheFn, case, TheRes))
+InvResult == CDone => (ResultOK(TheFn, case, TheRes, RefResult(TheFn, case)) \/ Excused(TheFn, case, TheRes))
+\* strict versions (no deviation class): expected to be VIOLATED (document the finding; sensitivity self-test)
+InvDiagnosisStrict == CDone => DiagnosisOK(TheFn, case, TheRes)
 InvSolution == CDone => SolutionOK(TheFn, case, TheRes)
 \* the two descriptions of binding agree on which parameters a call fills (the model binds what CPython binds)
 InvBindAgree == CDone => ImplSigParams(TheFn) = RefParams(TheFn)
